@@ -241,7 +241,9 @@ func (snm *shardNotificationsManager) getNotifications() error {
 	}
 
 	var startOffsetExclusive *int64
-	if snm.lastOffsetReceived >= 0 {
+	if snm.initialized {
+		// Resume after the last offset received, which is -1 if the subscription was positioned
+		// on an empty shard and no notification has arrived yet
 		startOffsetExclusive = &snm.lastOffsetReceived
 	}
 
